@@ -596,11 +596,15 @@ def pathSuffix (n : Str) : Str :=
   | some (b, a) => if b.isEmpty || a.isEmpty then [] else '.' :: a
   | .none => []
 
-/-- How a definition reaches `convert`: an existing file (`str` / `PathLike`: its final path
-component `name`), `bytes`, a `BytesIO` whose stream position is `pos`, an open binary file at position `pos`, or
+/-- the final component of a POSIX path (`PurePath.name`; the path of an existing file does not
+end in `/`) -/
+def pathName (p : Str) : Str := (p.reverse.takeWhile (· ≠ '/')).reverse
+
+/-- How a definition reaches `convert`: an existing file (`str` / `PathLike`: its whole path `p`, of
+any length, in any directory), `bytes`, a `BytesIO` whose stream position is `pos`, an open binary file at position `pos`, or
 `str` text that is not a file name. -/
 inductive Channel
-  | path (name : Str)
+  | path (p : Str)
   | bytes
   | bytesIO (pos : Nat)
   | file (pos : Nat)
@@ -620,7 +624,7 @@ suffix hint and a stem.  A caller's `BytesIO` is passed through as it is and the
 `definition.read()`, i.e. from its current position. -/
 def getDefinitionData (ch : Channel) (content : Str) : Definition :=
   match ch with
-  | .path name => ⟨content, FileType.ofSuffix (pathSuffix name), some (pathStem name)⟩
+  | .path p => ⟨content, FileType.ofSuffix (pathSuffix (pathName p)), some (pathStem (pathName p))⟩
   | .file pos => ⟨content.drop pos, .none, .none⟩
   | _ => ⟨content, .none, .none⟩
 
